@@ -1,5 +1,5 @@
 """Registry of built checks (bin/mkmanifest turns this into MANIFEST.json)."""
-HOOK_COMMITS = []
+HOOK_COMMITS = ["fbda34b"]
 NOT_YET = {}
 _G = "TLA+ grammar/contract + impl-shaped parser model checked by TLC; TLC-printed files concretised and run through the real loaders; observations judged by the contract operator in a TLA+ trace spec"
 _L = "TLA+ models of the reader stack (ReaderStack.tla: tee/bufio/parser programs; AutoChain.tla: chain of three loaders with explicit byte identities) model-checked by TLC over all delivery schedules; real loaders driven through an instrumented source, observations judged by LoadContract.tla in a TLA+ trace spec"
@@ -18,6 +18,11 @@ CHECKS = {
         "text": "Hostile.tla defines the case matrix (every length/count/offset field of PNG chunks, JPEG segments incl. ICC chunk numbering, RIFF/WebP chunks, ICC profile size/tag count/tag offsets and sizes/textDescription count/mluc count, record size, string length and offset, crossed with 37-40 symbolic boundary classes per field: small constants, v+-1, 2^w-1-d, the signed boundary, 2^w-v so that sums wrap; plus wrapping pairs for fields the code adds together) and the budget contract (call returns, no escaped panic, allocation <= 4096 n + 4 MiB, time <= 1 s + 2 ms/KiB). TLC prints the matrix; the harness resolves each class against 11 seed files and runs every public entry point (loaders, autometa, ICCProfile, Description, ReadProfile) in address-space-limited single-threaded worker processes, together with seeded structure-aware mutants (set-field, truncate, duplicate, flip) and every truncation; TLC judges every observation with WithinBudget; a dead worker is itself an observation (died).",
         "ref": "DESIGN.md 5/C09", "technique": "TLA+ case matrix + budget contract; TLC-generated cases replayed in resource-limited processes; trace validation",
         "note": "Budget constants are deliberately loose (observed maximum on the repaired tree is 1.5% of the allocation budget); native coverage-guided fuzzing is not used (different technique).",
+    },
+    "C11": {
+        "text": "LazyLut.tla models the lazy 16-bit tables and sync.Once step by step with a vector-clock happens-before relation; TLC explores all interleavings for 2 and 3 goroutines and proves NoRace, RetOK (every call returns the sequential value), BuiltOnce and termination for the repaired design, and finds the race in the as-found (nil-check fast path) and plain-flag designs. Every hook-level schedule TLC generates for N=2 (and a seeded sample for N=3) is forced onto each of the six real tables with spin gates on plain memory in //go:norace functions, in fresh processes under the race detector, together with un-gated first-use trials (N up to 64, GOMAXPROCS 1..16, also through LineariseColor/EncodeColor, image transforms with parallelism > 1, concurrent loaders and adaptation constructors). Hook traces recorded from the real code are validated against LazyLut with the unlogged steps inferred by TLC.",
+        "ref": "DESIGN.md 5/C11", "technique": "TLA+ model with vector clocks checked by TLC; TLC schedules replayed on the real code under the Go race detector; trace validation with inferred unlogged steps",
+        "note": "The race detector is the implementation-level oracle; races on paths no schedule or trial executes are not seen. Hooks: build tag verif, */lut.go.",
     },
     "C16": {
         "text": "IccHeader.tla transcribes ICC.1:2010 table 17 as (offset, length) pairs; TLC first checks the table itself (it partitions the 128 bytes, and each of the 1024 header bits flipped in an all-zeros and an all-ones header changes exactly the exposed fields Influence() names). The real reader is then run on walking ones/zeros over all 1024 bit positions of three base headers, every field all-ones/all-zeros alone, every valid date-time component, flag combinations with noise in the other 30 bits, seeded random headers with and without the signature, and Version.String on all 65,536 version byte pairs; TLC computes Expected(hdr) from the recorded header bytes and accepts or rejects every observation.",
